@@ -270,7 +270,9 @@ class SpecGen:
             return {"k": "indexed", "option": True, "index": mk_index(r, idx, w), "n": n, "content": content}
         if enc == "bytemasked":
             vw = r.random() < 0.5
-            mask = [(1 if v else 0) if vw else (0 if v else 1) for v in valid]
+            # any non-zero byte is "true" (NumPy boolean arrays hold 0/1, but a mask viewed from other bytes need not)
+            true = [1, 1, 1, 1, 2, -1, 127, -128] if r.random() < 0.3 else [1]
+            mask = [(r.choice(true) if v else 0) if vw else (0 if v else r.choice(true)) for v in valid]
             content = self.array(inner, n + r.choice([0, 0, 1]), wrap=False)
             return {"k": "bytemasked", "mask": mk_index(r, mask, "i8"), "valid_when": vw, "n": n, "content": content}
         if enc == "bitmasked":
